@@ -31,6 +31,11 @@ from checks.flocommon import COMPONENTS
 HEADER = "text\tAlways\tl1\n_time\tv\n"
 
 
+def _mine(path):
+    """Writes to the judged log (l1 and its rotated copies), not to another log of the same logger."""
+    return path.rsplit("/", 1)[-1].startswith("l1")
+
+
 def script_of(plan):
     L = ["house h", "", "  init .sim.v with value 0"]
     L += ["  framer wr be active in front first w0", "    frame w0", "      recur", "        do verif env with eid 0"]
@@ -42,6 +47,8 @@ def script_of(plan):
     if plan["reuse"]:
         lg += " reuse"
     L.append(lg)
+    if plan.get("first_log"):     # the judged log is then the second log of its logger
+        L += ["    log l0 on always", "      loggee value in .sim.v as v"]
     L += ["    log l1 on %s" % plan.get("rule", "always"), "      loggee value in .sim.v as v"]
     return "\n".join(L) + "\n"
 
@@ -64,7 +71,7 @@ class C23(Check):
     assumptions = ["'dies' = process death: kernel-visible file state survives, user-space buffers do not; power loss is not modelled",
                    "records rotated out by design (the copy beyond 'keep') are not 'lost'",
                    "after a death an empty header-less newest file is not a violation"]
-    required_probes = ["rotated", "killed-mid-rotation", "killed-with-unflushed", "size-gated", "io-error-branch", "designed-drop", "restarted-after-kill", "killed-twice", "flush-schedule-checked", "sparse-update", "sparse-change"]
+    required_probes = ["rotated", "killed-mid-rotation", "killed-with-unflushed", "size-gated", "io-error-branch", "designed-drop", "restarted-after-kill", "killed-twice", "flush-schedule-checked", "sparse-update", "sparse-change", "second-log-of-its-logger"]
     quick_runs = 120
     thorough_runs = 6000
     shrink_fields = []
@@ -77,7 +84,9 @@ class C23(Check):
                 "lperiod": g.choice([None, None, "0.5"]), "kill": None, "faults": {},
                 # mostly the 'always' rule (a record per logger run); sometimes a rule that writes only when the share was written,
                 # with the writes at drawn ticks, so that flushes fall on ticks without a new record and records on ticks without a flush
-                "rule": g.choice(["always", "always", "update", "change"]), "wticks": sorted(g.sample(range(ticks + 3), g.randint(2, max(2, ticks // 2))))}
+                "rule": g.choice(["always", "always", "update", "change"]), "wticks": sorted(g.sample(range(ticks + 3), g.randint(2, max(2, ticks // 2)))),
+                # another log declared before the judged one in the same logger (decided last, so that all other fields stay as they were)
+                "first_log": g.random() < 0.3}
 
     def directed(self):
         return [{"P": "0.25", "ticks": 14, "keep": 2, "cycle": "0.5", "size": 20, "flush": "1.0", "reuse": True, "lperiod": None, "kill": None, "faults": {}}]
@@ -90,6 +99,8 @@ class C23(Check):
         P = Fraction(plan["P"])
         rule = plan.get("rule", "always")
         HEADER = "text\t%s\tl1\n_time\tv\n" % rule.capitalize()
+        if plan.get("first_log"):
+            out.probe("second-log-of-its-logger")
         if rule != "always":
             out.probe("sparse-" + rule)      # a log that does not write on every logger run: ticks with a flush but nothing new, and the reverse
         env = self._env(plan, 1000)
@@ -178,9 +189,9 @@ class C23(Check):
     def _after_death(self, fs, lost_before):
         """(records that died in user buffers so far, records that were flushed before this death and so must survive)."""
         held = set()
-        for ino in list(fs.files.values()) + [r[2] for r in fs.retired]:
+        for ino in [i for pth, i in fs.files.items() if _mine(pth)] + [r[2] for r in fs.retired if _mine(r[0])]:
             held.update(ino.data)
-        lost = set(lost_before) | set(t for (i, p, t) in fs.written if t != HEADER and t != "" and t not in held)
+        lost = set(lost_before) | set(t for (i, p, t) in fs.written if _mine(p) and t != HEADER and t != "" and t not in held)
         lastflush, need = self._durable(fs)
         return lost, (lastflush, [t for t in need if t not in lost_before])
 
@@ -188,7 +199,7 @@ class C23(Check):
     def _durable(fs):
         """Records written before the most recent completed application-level flush (Log.flush = file.flush + os.fsync)."""
         lastflush = max([i for i, p in fs.fsync_log if p and p.rsplit("/", 1)[-1].startswith("l1")] or [-1])
-        return lastflush, [t for (i, p, t) in fs.written if t != HEADER and t != "" and i < lastflush]
+        return lastflush, [t for (i, p, t) in fs.written if _mine(p) and t != HEADER and t != "" and i < lastflush]
 
     def _judge(self, plan, script, concrete, res, fs, killed, kill, faults, out, tr, phase, lost, must=None):
         sig_cfg = "keep=%d size=%d reuse=%s" % (plan["keep"], plan["size"], plan["reuse"])
@@ -215,7 +226,7 @@ class C23(Check):
         main = base[0] if base else fam[0].rsplit("/", 1)[0] + "/l1.txt"
         root = main[:-4]
         ordered = [p for p in sorted((p for p in fam if p != main), reverse=True)] + ([main] if main in files else [])
-        S = [t for (i, p, t) in fs.written if t != HEADER and t != "" and t not in lost]         # the record stream in write order
+        S = [t for (i, p, t) in fs.written if _mine(p) and t != HEADER and t != "" and t not in lost]         # the record stream in write order
         pos = dict((t, i) for i, t in enumerate(S))
         if len(pos) != len(S):
             raise RuntimeError("harness: records are not unique")
@@ -280,7 +291,7 @@ class C23(Check):
                 # attempt flushes too.
                 epoch = getattr(fs, "deaths", 0)
                 fops = sorted((op, t) for (ep, t, op, p) in fs.fsync_ops if ep == epoch and t is not None and p == main)
-                recs = [(t, op, text) for (ep, t, op, p, text) in fs.written_times if ep == epoch and t is not None and text != HEADER]
+                recs = [(t, op, text) for (ep, t, op, p, text) in fs.written_times if _mine(p) and ep == epoch and t is not None and text != HEADER]
                 F = float(plan["flush"])
                 runs = [e[1] for e in res.trace if e[2] == "sent" and e[3] == "lg" and e[5] in (1, 2)]
                 for t in runs:
@@ -302,7 +313,7 @@ class C23(Check):
             if gone:
                 return bad("not-durable", "records written before the most recent flush are gone after the process died [%s]" % sig_cfg,
                            "stream positions %r (last completed flush at op %d, died at %r)" % (gone[:10], lastflush, fs.killed_op))
-            if any(i >= lastflush for (i, p, t) in fs.written if t != HEADER):
+            if any(i >= lastflush for (i, p, t) in fs.written if _mine(p) and t != HEADER):
                 out.probe("killed-with-unflushed")
             if fs.killed_op and fs.killed_op[1] in ("rename", "open", "os.open", "fdopen") and fs.renames:
                 out.probe("killed-mid-rotation")
